@@ -36,7 +36,9 @@ func dateIs(err error) []string {
 func dateTyped(err error) bool {
 	var a *date.ParseError[string]
 	var b *date.ParseError[[]byte]
-	return errors.As(err, &a) || errors.As(err, &b)
+	var c *date.ParseError[myStr]
+	var d *date.ParseError[myBytes]
+	return errors.As(err, &a) || errors.As(err, &b) || errors.As(err, &c) || errors.As(err, &d)
 }
 
 func ymd(d date.Date) []int {
@@ -145,9 +147,14 @@ func init() {
 		var d date.Date
 		var err error
 		p := try(func() {
-			if str(e["T"]) == "s" {
+			switch str(e["T"]) {
+			case "s":
 				d, err = date.DefaultParser(string(in), rule)
-			} else {
+			case "S": // a named string type
+				d, err = date.DefaultParser(myStr(in), rule)
+			case "B": // a named []byte type
+				d, err = date.DefaultParser(myBytes(reused(in)), rule)
+			default:
 				d, err = date.DefaultParser(reused(in), rule)
 			}
 		})
